@@ -205,4 +205,147 @@ theorem length_eq_sum_indicator (l : List Nat) (hl : l.Nodup) (n : Nat) (P : Nat
     exact hm i
   rw [← this, List.toFinset_card_of_nodup hl]
 
+/-! ## one-column images (the same argument with the axes exchanged) -/
+
+theorem get_one_col (b : Bin) (h1 : b.cols = 1) (y x : Int) : b.get y x = (b.get y 0 && ivl 0 1 x) := by
+  unfold ivl
+  by_cases hx : x = 0
+  · subst hx; simp
+  · have : b.get y x = false := by
+      unfold Bin.get; rw [if_neg]; rw [h1]; omega
+    rw [this]
+    have hd : decide ((0 : Int) ≤ x ∧ x < 0 + 1) = false := by
+      apply decide_eq_false; omega
+    rw [hd]; simp
+
+theorem get_col_outside (b : Bin) (y : Int) (h : y < 0 ∨ (b.rows : Int) ≤ y) : b.get y 0 = false := by
+  unfold Bin.get; rw [if_neg]; omega
+
+theorem eulerModel4_one_col (b : Bin) (c : Bool) (h1 : b.cols = 1) :
+    eulerModel4 b c = 4 * ∑ k ∈ Finset.range b.rows, up (fun y => b.get y 0) k := by
+  let m : Int → Bool := fun y => b.get y 0
+  have hg : b.get = fun y x => m y && ivl 0 1 x := by
+    funext y x; exact get_one_col b h1 y x
+  have htr0 : ∀ y : Int, y ∉ rowCols b.rows → tr m y = 0 := by
+    intro y hy
+    rw [mem_rowCols] at hy
+    have a1 : m y = false := get_col_outside b y (by omega)
+    have a2 : m (y + 1) = false := get_col_outside b (y + 1) (by omega)
+    unfold tr; rw [a1, a2]; simp
+  have hcov : Covers c b.get (rowCols b.rows ×ˢ ends 0 1) := by
+    intro p hp
+    rw [hg, qw_prod c m (ivl 0 1) p.1 p.2]
+    rw [Finset.mem_product] at hp
+    by_cases hx : p.2 ∈ ends 0 1
+    · have hy : p.1 ∉ rowCols b.rows := fun hy => hp ⟨hy, hx⟩
+      rw [htr0 _ hy, Int.zero_mul]
+    · rw [tr_ivl_outside 0 1 (by omega) _ hx, Int.mul_zero]
+  rw [eulerModel4_eq_E b c _ hcov]
+  unfold E
+  rw [Finset.sum_product]
+  have hq : ∀ y ∈ rowCols b.rows, ∑ x ∈ ends 0 1, qw c b.get (y, x).1 (y, x).2 =
+      ∑ x ∈ ends 0 1, tr m y * tr (ivl 0 1) x := by
+    intro y _
+    apply Finset.sum_congr rfl
+    intro x _
+    rw [hg]; exact qw_prod c m (ivl 0 1) y x
+  rw [Finset.sum_congr rfl hq, ← Finset.sum_mul_sum, sum_tr_ivl 0 1 (by omega)]
+  have himg : ∑ y ∈ rowCols b.rows, tr m y = ∑ k ∈ Finset.range (b.rows + 1), tr m ((k : Int) - 1) := by
+    unfold rowCols
+    rw [Finset.sum_image]
+    intro a _ a' _ h
+    have h' : (a : Int) - 1 = (a' : Int) - 1 := h
+    have : (a : Int) = (a' : Int) := by omega
+    exact_mod_cast this
+  rw [himg, sum_tr_row m b.rows (get_col_outside b (-1) (by omega)) (get_col_outside b _ (by omega))]
+  ring
+
+theorem adj_one_col {n i j : Nat} {c : Bool} (hi : i < n) (h : adjIdx n 1 c i j) : j = i + 1 ∨ j + 1 = i := by
+  obtain ⟨d, hd, ht⟩ := h
+  unfold tgt at ht
+  rw [Nat.div_one, Nat.mod_one] at ht
+  split at ht
+  · rename_i hb
+    injection ht with ht
+    obtain ⟨d1, d2⟩ := d
+    simp only at hb ht
+    have h0 : d2 = 0 := by omega
+    subst h0
+    have hd1 : d1 = 1 ∨ d1 = -1 := by
+      cases c <;> simp [neigh] at hd <;> omega
+    rcases hd1 with rfl | rfl
+    · left; subst ht; simp
+    · right; subst ht; simp; omega
+  · exact absurd ht (by simp)
+
+theorem adj_left_one_col {n i : Nat} (c : Bool) (hi : i < n) (h1 : 1 ≤ i) : adjIdx n 1 c i (i - 1) := by
+  refine ⟨(-1, 0), by cases c <;> simp [neigh], ?_⟩
+  unfold tgt
+  rw [Nat.div_one, Nat.mod_one]
+  rw [if_pos (by simp; omega)]
+  congr 1
+  simp
+  omega
+
+/-- the characterisation of the smallest pixel of a component for any box whose graph is a path `0 - 1 - 2 - …` -/
+theorem minimal_iff_path (rows cols : Nat) (mask : Array Bool) (c : Bool)
+    (hadj : ∀ i j, i < rows * cols → adjIdx rows cols c i j → j = i + 1 ∨ j + 1 = i)
+    (hleft : ∀ i, i < rows * cols → 1 ≤ i → adjIdx rows cols c i (i - 1))
+    (i : Nat) (hv : IsV rows cols mask i) :
+    (∀ j, IConn rows cols mask c i j → i ≤ j) ↔ (i = 0 ∨ mk mask (i - 1) = false) := by
+  have hin : i < rows * cols := hv.1
+  constructor
+  · intro h
+    by_contra hcon
+    have h1 : 1 ≤ i := by omega
+    have hm : mk mask (i - 1) = true := by
+      cases hmm : mk mask (i - 1)
+      · exact absurd (Or.inr hmm) hcon
+      · rfl
+    have hv' : IsV rows cols mask (i - 1) := ⟨by omega, hm⟩
+    have := h (i - 1) (Relation.ReflTransGen.single ⟨hv, hv', hleft i hin h1⟩)
+    omega
+  · intro h j hj
+    induction hj with
+    | refl => exact Nat.le_refl _
+    | tail hik hkj ih =>
+      rename_i k j
+      obtain ⟨hvk, hvj, hadj'⟩ := hkj
+      rcases hadj k j hvk.1 hadj' with e | e
+      · omega
+      · by_cases hki : k = i
+        · subst hki
+          rcases h with h0 | hm
+          · omega
+          · have : j = k - 1 := by omega
+            subst this
+            rw [hvj.2] at hm
+            exact absurd hm (by simp)
+        · omega
+
+theorem bdr_one_col (n k : Nat) : bdr n 1 k = true := by
+  unfold bdr
+  rw [Nat.mod_one]
+  simp
+
+theorem get_col_inside (b : Bin) (h1 : b.cols = 1) (k : Nat) (hk : k < b.rows) : b.get (k : Int) 0 = mk b.data k := by
+  unfold Bin.get mk
+  rw [if_pos (by rw [h1]; omega), h1]
+  simp
+
+theorem up_one_col (b : Bin) (h1 : b.cols = 1) (k : Nat) (hk : k < b.rows) :
+    up (fun y => b.get y 0) k = if (mk b.data k = true ∧ (k = 0 ∨ mk b.data (k - 1) = false)) then 1 else 0 := by
+  have hk0 : b.get (k : Int) 0 = mk b.data k := get_col_inside b h1 k hk
+  rcases Nat.eq_zero_or_pos k with h0 | hpos
+  · subst h0
+    have hm1 : b.get (((0 : Nat) : Int) - 1) 0 = false := get_col_outside b _ (by omega)
+    simp only [up, hk0, hm1]
+    simp
+  · have e : ((k : Int) - 1) = ((k - 1 : Nat) : Int) := by omega
+    have hk1 : b.get ((k : Int) - 1) 0 = mk b.data (k - 1) := by
+      rw [e]; exact get_col_inside b h1 (k - 1) (by omega)
+    have : k ≠ 0 := by omega
+    simp only [up, hk0, hk1]
+    simp [this]
+
 end Mahotas.C15
